@@ -356,6 +356,8 @@ def oracle(c, o):
 	if o.get('final_content') is not None and not (dropped(c) and any(op[0] == 'p' for op in c['ops'])):
 		if bytes.fromhex(o['final_content']) != content:
 			return 'the body source no longer holds the content after the operations'
+		if o['init']['fd'][0] in ('bytesio', 'file') and o.get('final_fd') != o['init']['fd']:
+			return 'the position of the body source is not restored: %r became %r' % (o['init']['fd'], o.get('final_fd'))
 	return None
 
 
